@@ -121,8 +121,9 @@ func Of(kind string, tier int) []aa.Rule {
 		}
 	case "network":
 		for _, q := range quals {
-			for _, d := range pick(tier, []string{"", "inet", "netlink"}, []string{"inet6", "unix"}) {
-				for _, t := range pick(tier, []string{"", "stream", "raw"}, []string{"dgram"}) {
+			// (packet is the name of a domain AND of a socket type)
+			for _, d := range pick(tier, []string{"", "inet", "netlink", "packet"}, []string{"inet6", "unix"}) {
+				for _, t := range pick(tier, []string{"", "stream", "raw", "packet"}, []string{"dgram"}) {
 					for _, p := range []string{"", "tcp"} {
 						if t != "" && p != "" {
 							continue // the template prints only one of type / protocol
